@@ -156,21 +156,35 @@ Open Scope Z_scope.
 """
 
 
+HEADER_R = """From Coq Require Import ZArith List String.
+From Strand Require Import Base.ZUtil Base.FastArith Model.Outcome Model.Codec Model.Sha512 Model.Exec Model.Ristretto Model.RistrettoFast Model.ExecR.
+Import ListNotations.
+Open Scope Z_scope.
+"""
+
+
 def _coq_shard(args):
     wd, k, items, extra = args
     name = "cases_%d" % k
     path = os.path.join(wd, name + ".v")
     with open(path, "w") as f:
-        f.write(HEADER % extra)
-        f.write("Definition cases : list case := [\n")
+        is_r = bool(items) and items[0][0] == ("R",)
+        f.write(HEADER_R if is_r else HEADER % extra)
+        f.write("Definition cases : list %s := [\n" % ("rcase" if is_r else "case"))
         rows = []
         for (ctx, op, margs, expected) in items:
+            if is_r:
+                rows.append('  ("%s"%%string, [%s], %s)' % (op, "; ".join(coq_val(a) for a in margs), coq_val(expected)))
+                continue
             k_, fl_, p_ = ctx
             rows.append('  (%s, %s, %s, "%s"%%string, [%s], %s)' % (
                 k_, fl_, p_, op, "; ".join(coq_val(a) for a in margs), coq_val(expected)))
         f.write(";\n".join(rows))
         f.write("\n].\n")
-        f.write("Definition result := Eval vm_compute in (mismatches cases).\n")
+        if is_r:
+            f.write("Definition result := Eval vm_compute in (rmismatches K_fast PM_fast cases).\n")
+        else:
+            f.write("Definition result := Eval vm_compute in (mismatches cases).\n")
         f.write("Eval vm_compute in (map fst result).\n")
         f.write("Eval vm_compute in result.\n")
     t0 = time.time()
@@ -204,6 +218,8 @@ def run_coq_cases(wd, items, shard=200, extra_imports=""):
 
 
 def ctx_tuple(ctx):
+    if ctx == "R":
+        return ("R",)
     fl, p = ctx.split(":")
     flavor = {"B": "Bigint", "M": "Malachite"}[fl]
     if p == "2048":
@@ -319,9 +335,12 @@ class Env:
         if not items:
             return []
         big = [it for it in items if it[1].endswith(":2048")]
-        small = [it for it in items if not it[1].endswith(":2048")]
+        rist = [it for it in items if it[1] == "R"]
+        small = [it for it in items if not it[1].endswith(":2048") and it[1] != "R"]
         out = []
-        for group, sh_ in ((small, shard), (big, 1)):
+        # ristretto cases cost ~0.3 s per scalar multiplication in the model: small shards, all 16 cores
+        r_shard = max(1, min(8, (len(rist) + 15) // 16))
+        for group, sh_ in ((small, shard), (big, 1), (rist, r_shard)):
             if not group:
                 continue
             self._tie_round += 1
